@@ -6,16 +6,16 @@ CONSTANTS
   SelectMode = "det"
   LegacyBreak = FALSE
   MetricDefs <- TreeMetrics
-  SlotDefs <- TreeSlots
+  SlotDefs <- TreeSlots5
   Sizes <- Sz13
   WWs = {1}
-  MWs = {1, 2}
+  MWs = {1}
   NWs = {1, 2}
   GWs = {1, 2}
   Buds = {0}
   NSAs = {FALSE}
-  OptSets <- OptsTree
-  Budgets = {2, 3, 6, 9}
+  OptSets <- OptsTreeFull
+  Budgets = {3, 6}
 VIEW MCView
 INVARIANTS TypeOK AtMostOnce ExactlyOnce Unbiased KeptRowsFactorGE1 NoSampleAgentKept SameFactorInLeaf FitsNothingSampled FairShare FixedWithinBudget FairShareRemaining FitIsJustified Monotone KeptWithinBudget QuotaWithinTotal QuotaProportional QuotaFitIsSize QuotaWithinTotalAnyRounding ExportDone
 CHECK_DEADLOCK FALSE
